@@ -16,25 +16,38 @@ CHECKS = {
         'engine': 'combinersim',
         'technique': DST + ': seeded combiner instances executed on a provenance-tracking fake engine; process crashes '
                            'injected at every file-system operation on the saved plan (all of them for small instances, '
-                           'sampled for large ones), resume by load() and by new_combiner(); exactly-once oracle on the '
-                           'provenance multiset of the output; interval-arithmetic oracle on the genome partitioning',
+                           'sampled for large ones) and transient failures injected at numbered calls into the fake engine '
+                           '(read / import / merge statistics / dataset write, inside a step), resume by load() and by '
+                           'new_combiner(), repeatedly; interval lists of claimed length > 150,000; exactly-once oracle on the '
+                           'provenance multiset of the output; conservation oracle on every durable plan file; bounded plan '
+                           'saves per process (termination); interval-arithmetic oracle on the genome partitioning',
         'design_ref': 'DESIGN.md section 6 (C38), section 5.6',
         'level_text': 'For every generated instance with at most ~130 crash points, every crash point of the first process '
                       '(each exists/copy/open/close/remove on the plan file or its backup, torn writes at 4 cut positions '
                       'in the posix flavour) is executed with both resume modes; larger instances sample crash points; '
-                      'resumed processes are crashed again at seeded points. The partitioning function is run on synthetic '
+                      'resumed processes are crashed again at seeded points. Independently, an engine call of the first '
+                      'process is made to raise (every call x both resume modes, and both leftovers of a failed write, for '
+                      'small instances; sampled otherwise) and the combiner is resumed from the plan on disk, with further '
+                      'seeded failures / kills of the resumed processes. The partitioning function is run on synthetic '
                       'corner-case genomes and on the real GRCh37/GRCh38 contig lengths. Instances are sampled, not '
                       'exhaustive; the engine is a fake, so record-level merge semantics are not covered.',
         'level_note': 'Trusted base: FakeHail (merge = multiset sum; engine writes atomic), SimFS durability model, CPython '
                       'json. Bounds: <= 40 GVCFs (200 thorough), <= 12 VDS inputs, branch factor 2..6, batch size 1..8, <= 3 '
-                      'crashes per execution. Crashes inside engine writes (partially written datasets) are not generated.',
+                      'abnormal process ends per execution. A failed dataset write leaves nothing or part files without '
+                      '_SUCCESS; a process is never killed (as opposed to failing with an exception) inside an engine call. '
+                      'An interval list of more than 150,000 entries is represented by its first entries plus a claimed '
+                      'length (only len() sees it).',
         'scenarios': [
-            {'module': 'worlds.combiner.plan', 'quick': 1500, 'thorough': 12000, 'params': {'samples': 8, 'enum_cap': 260}},
+            {'module': 'worlds.combiner.plan', 'quick': 1500, 'thorough': 12000, 'params': {'samples': 8, 'enum_cap': 260, 'fault_samples': 4, 'fault_enum_cap': 48}},
             {'module': 'worlds.combiner.partition', 'quick': 5000, 'thorough': 60000},
         ],
         'expected_probes': ['resume_via_load', 'resume_via_new_combiner', 'torn_save', 'multi_level_merge',
                             'vds_and_gvcf_mixed', 'stopped_after_step', 'torn_plan_restart_from_scratch',
                             'instances_fully_enumerated', 'second_crash', 'resume_refused_output_exists',
+                            'engine_fault_in_write', 'engine_fault_in_read_or_import', 'resume_after_engine_fault_via_load',
+                            'resume_after_engine_fault_via_new_combiner', 'second_engine_fault', 'engine_fault_and_crash',
+                            'partial_output_cleared_by_operator', 'instances_engine_faults_fully_enumerated',
+                            'big_interval_list_resume_via_new_combiner',
                             'len_lt_size', 'len_eq_k_size', 'len_eq_k_size_pm1', 'multi_interval_contig'],
     },
 }
